@@ -502,7 +502,7 @@ func (e *E) pathsOfHit(h Hit) ([]string, bool) {
 			for _, k := range []string{".p", ".q", ".z"} {
 				paths = append(paths, fc.Path+k, fc.Path+k+".0", fc.Path+k+".1")
 			}
-		case KSVInt, KSInt, KSStr, KA2, KPA2, KPSInt, KSUStr, KSUCfg, KSMap:
+		case KSVInt, KSInt, KSStr, KA2, KPA2, KIA2, KPSInt, KSUStr, KSUCfg, KSMap:
 			// the field's validators are also applied to each element, which is then named
 			for i := 0; i < 6; i++ {
 				paths = append(paths, fc.Path+"."+itoa(i))
